@@ -12,8 +12,12 @@ real concurrency.
 
 Workflow description W: list of dicts {stage, is_repeat, is_aggregate, is_replica, preds, shutdown_on,
 restart_on, max_r}.  outcome[c] = list of exit reasons of successive executions (last one repeats).
-Events: ('Tick',) ('Exit', c) ('PM', c) ('Fin', c).
+Events: ('Tick',) ('Exit', c) ('PM', c) ('Fin', c); ('Sleep',) ('Wake',) = Controller.sleep()/wake_up();
+('Patch', new_components, new_edges, outcomes) = the controller part of elaunch's LivePatcher.live_patch (only while
+the controller sleeps): the experiment is switched to a NEW graph object that holds the old nodes and edges plus the
+patched-in ones, and Controller.parse_workflow_graph() is called under comp_lock.
 """
+import copy
 import logging
 import threading
 import types
@@ -197,6 +201,8 @@ class ManualEvent(object):
 
 class Driver(object):
     def __init__(self, W, outcome, with_cdb=False):
+        W = copy.deepcopy(W)            # a live patch extends the description in place
+        outcome = dict((k, list(v)) for k, v in outcome.items())
         self.W = W
         self.outcome = outcome
         self.n = len(W)
@@ -222,6 +228,9 @@ class Driver(object):
         control.WaitOnStability = lambda *a, **k: True
         self.slow_pm = False         # offer split post-mortems (PMB/PME) among the enabled events
         self.sleepy = False          # offer Controller.sleep() / wake_up() among the enabled events
+        self.patcher = None          # callable(driver) -> ('Patch', new, edges, outcomes) or None, offered while asleep
+        self.patches = 0
+        self.exp = exp
         self.inflight = {}           # c -> (thread, gate): post-mortems parked inside the stability wait
         self._parked = threading.Event()
 
@@ -422,7 +431,47 @@ class Driver(object):
             ev.append(('Fin', c))
         if self.sleepy and not self.inflight:
             ev.insert(0, ('Wake',) if self.ctl._start_sleeping else ('Sleep',))
+            if self.patcher is not None and self.ctl._start_sleeping:
+                pev = self.patcher(self)
+                if pev is not None:
+                    ev.insert(1, pev)
         return ev
+
+    def patch(self, new, edges, outcomes):
+        """new: descriptions of the patched-in components (their preds name existing or earlier new components);
+        edges: (producer index, consumer index) pairs added to components that exist already"""
+        assert self.ctl._start_sleeping
+        old = self.exp.experimentGraph.graph
+        g = networkx.DiGraph()
+        g.add_nodes_from(old.nodes(data=True))
+        g.add_edges_from(old.edges())
+        per_stage = {}
+        for d in self.W:
+            per_stage[d['stage']] = per_stage.get(d['stage'], 0) + 1
+        for d, oc in zip(new, outcomes):
+            d = copy.deepcopy(d)
+            i = len(self.W)
+            j = per_stage.get(d['stage'], 0)
+            per_stage[d['stage']] = j + 1
+            self.W.append(d)
+            self.outcome[i] = list(oc)
+            c = FakeComp(i, d, self, cname='c%d' % j)
+            self.comps.append(c)
+            self.idx_of[c.ref] = i
+            g.add_node(c.ref, stageIndex=d['stage'], component=weakref.ref(c))
+            for p in d['preds']:
+                g.add_edge(self.comps[p].ref, c.ref)
+        for (p, c) in edges:
+            if p not in self.W[c]['preds']:
+                self.W[c]['preds'].append(p)      # FakeComp.d is this very dict: .producers follows
+            g.add_edge(self.comps[p].ref, self.comps[c].ref)
+        self.n = len(self.W)
+        self.nstages = max(d['stage'] for d in self.W) + 1
+        # Experiment.switchWorkflowGraph: a NEW WorkflowGraph object with a NEW networkx graph
+        self.exp.experimentGraph = types.SimpleNamespace(graph=g, _placeholders={}, _documents={})
+        with self.ctl.comp_lock:
+            self.ctl.parse_workflow_graph()
+        self.patches += 1
 
     def do(self, ev):
         k = ev[0]
@@ -443,6 +492,8 @@ class Driver(object):
         elif k == 'Wake':
             self.ctl.wake_up()
             self._scan()
+        elif k == 'Patch':
+            self.patch(ev[1], ev[2], ev[3])
         else:
             raise ValueError(ev)
 
